@@ -686,6 +686,15 @@ pub fn scn_big(out: &mut TraceOut, r: &mut R, n: u32, nops: usize) {
         data: Rc::new(bytes),
         ops_done: 0,
     };
+    // long purely sequential scans (read-ahead or caching schemes only show after many crossings)
+    if n <= 100_000 {
+        if let Some(c) = s.cursor(true) {
+            s.scan(c, true);
+        }
+        if let Some(c) = s.cursor(false) {
+            s.scan(c, false);
+        }
+    }
     let Some(c) = s.cursor(true) else { return };
     let hi = base + n * step + 3;
     let mut i = 0;
@@ -925,18 +934,19 @@ pub fn scn_explore(out: &mut TraceOut, _r: &mut R, idx: u64, heavy: bool) {
     #[derive(Clone, PartialEq, Eq, Hash)]
     struct Abs {
         pos: i64,
-        zone: bool,
+        /// 0: everything specified, 1: a relative move just returned None, 2: an absolute move returned None
+        zone: u8,
     }
     let step = |a: &Abs, op: &Op, res: i64| -> Abs {
         match op {
             Op::First | Op::Last | Op::Ge(_) | Op::Le(_) | Op::Eq(_) => {
-                if res > 0 { Abs { pos: res, zone: false } } else { Abs { pos: a.pos, zone: true } }
+                if res > 0 { Abs { pos: res, zone: 0 } } else { Abs { pos: a.pos, zone: 2 } }
             }
             Op::Next | Op::Prev => {
-                if res > 0 { Abs { pos: res, zone: a.zone } } else { Abs { pos: a.pos, zone: true } }
+                if res > 0 { Abs { pos: res, zone: if a.zone == 2 { 2 } else { 0 } } } else { Abs { pos: a.pos, zone: if a.zone == 2 { 2 } else { 1 } } }
             }
             Op::Current => a.clone(),
-            Op::Reset => Abs { pos: 0, zone: false },
+            Op::Reset => Abs { pos: 0, zone: 0 },
         }
     };
     let mut s = new_session(out, entries.clone(), dict, data);
@@ -953,7 +963,7 @@ pub fn scn_explore(out: &mut TraceOut, _r: &mut R, idx: u64, heavy: bool) {
         // reach the state again on a fresh cursor
         let Some(c) = s.cursor(first) else { return };
         first = false;
-        let mut abs = Abs { pos: 0, zone: false };
+        let mut abs = Abs { pos: 0, zone: 0 };
         for op in &hist {
             let res = s.op(c, op);
             abs = step(&abs, op, res);
